@@ -2593,6 +2593,11 @@ propagate_constraint_check_result(Result r, Ternary& open) {
     return false;
   case V_EQ:
     return false;
+  case V_NAN:
+    // The bounded arithmetic could not even approximate the value
+    // (e.g., V_UNKNOWN_NEG_OVERFLOW, V_UNKNOWN_POS_OVERFLOW):
+    // no bound can be propagated.
+    return true;
   default:
     PPL_UNREACHABLE;
     return true;
